@@ -148,7 +148,7 @@ type childPoint struct {
 	// execution. Preempting before an operation on a thread-local object is
 	// equivalent to preempting before that thread's next shared operation
 	// (local operations commute with every other thread), so it is not branched.
-	Shared bool    `json:"s"`
+	Shared bool `json:"s"`
 	obj    uintptr
 }
 
@@ -343,6 +343,10 @@ func trunc(s string, n int) string {
 // ChildMain: --child <mode> <scenario> <ledgerfile> <choices|threadIdx|reps>
 func ChildMain(args []string) {
 	mode := args[0]
+	if mode == "c33" {
+		c33Child()
+		return
+	}
 	if mode == "mkledger" {
 		fmt.Println(prepareLedger(args[1]))
 		return
@@ -775,7 +779,7 @@ func replayC36(env *mc.Env, raw json.RawMessage) (bool, string) {
 
 func init() {
 	mc.Register(&mc.Check{
-		ID: "C36",
+		ID:   "C36",
 		Rule: "scenarios of 2–3 threads (parse+check with an elaboration digest, or execute a script with the interpreter / VM and CCF-encode the result) that import one shared contract through a shared program cache and touch the same lazily initialised caches; every interleaving at cadence's own sync/atomic operations (overlay-compiled shims) with at most `preemption_bound` preemptions, sync.Pool.Get answers included, one fresh process per execution; non-trivial = execution with >= 1 deviation from the non-preemptive schedule",
 		Assumptions: []string{
 			"schedule points are cadence's sync / sync/atomic operations; a race whose window contains no such operation is visible only to the supplementary free-running -race pass",
